@@ -110,6 +110,18 @@ class P:
         for name, n, mode, ifs in itertools.product("@*", range(0, 3), (16, 16 | 2, 16 | 1, 16 | 4, 16 | 8, 2, 1, 4, 8), (None, ",", "")):
             for pes in ([X.P(name)], [X.P(name), X.P(name)], [X.P(name), X.L("x")], [X.P(name, "", None)], [X.P(name, ":-", [X.L("d")])], [X.Q('"', X.P(name))]):
                 at.append(X.case(["sh"] + ["a b", "c"][:n], X.NOGLOB, {"IFS": ifs}, mode, pes))
+        # a quoted character in the word of a removal operator matches only itself: every character the expansion escapes and every
+        # regular-expression metacharacter, in the three quotings, alone and next to an unquoted *
+        for c_ in "?*[\\]-!^.+()|{}$":
+            val = "a" + c_ + "b" + c_
+            for q_ in ("'", "\\", '"'):
+                if q_ == '"' and c_ in "$\\":
+                    continue
+                qc = X.Q(q_, X.L(c_))
+                for op_ in ("%", "%%", "#", "##"):
+                    for w_ in ([qc], [X.L("a"), qc, X.L("*")], [X.L("*"), qc], [qc, X.L("?")], [X.L("a"), qc]):
+                        at.append(X.case(["sh", val], X.NOGLOB, {"IFS": None, "v": val}, 0, [X.P("v", op_, w_)]))
+                    at.append(X.case(["sh", val, "x" + c_], X.NOGLOB, {"IFS": None}, 0, [X.Q('"', X.P("@", op_, [qc]))]))
         rc = []
         nrand = 20000 if tier == "quick" else 200000
         names = ["v", "u", "1", "2", "10", "#", "?", "-", "!", "0", "@", "*", "HOME", "IFS"]
